@@ -1,13 +1,213 @@
-(** C10 — stub while building *)
-From Coq Require Import Reals.
+(** C10 — BOLFI posterior matches its definition; the fast GP path equals the GP.
+    Models: Gen/C10_Gradient.v (GENERATED on every run from the source text of
+    BolfiPosterior._unnormalized_loglikelihood / _gradient_unnormalized_loglikelihood),
+    Num/Gp.v (bounds test, -inf rule, shape rule, evidence store), Num/GpMx.v (cached-RBF algebra).
+    This file only states the property theorems; proofs are in Proofs/C10_*.v. *)
+From Coq Require Import Reals List QArith.
 From Coquelicot Require Import Coquelicot.
-From Elfi Require Import Gen.C10_Gradient Proofs.C10_Deriv.
-Local Open Scope R_scope.
+From Elfi Require Import Gen.C10_Gradient Num.Gp Num.GpGen
+     Proofs.C10_Deriv Proofs.C10_Post Proofs.C10_Gen.
+Import ListNotations.
 
+(** ** 1. the gradient is the derivative of the log density (about the generated text) *)
+
+(** For every threshold, every normal-like pdf/cdf pair (Phi' = phi, both positive) and every
+    surrogate mean / predictive variance differentiable along the coordinate with positive variance:
+    the translated gradient formula is the derivative of the translated log-likelihood. *)
 Theorem C10_gradient_is_derivative :
   forall (phi Phi mu v dmu dv : R -> R) (t : R),
-    (forall z, is_derive Phi z (phi z)) -> (forall z, 0 < Phi z) -> (forall z, 0 < phi z) ->
-    forall x, is_derive mu x (dmu x) -> is_derive v x (dv x) -> 0 < v x ->
+    (forall z, is_derive Phi z (phi z)) -> (forall z, 0 < Phi z)%R -> (forall z, 0 < phi z)%R ->
+    forall x, is_derive mu x (dmu x) -> is_derive v x (dv x) -> (0 < v x)%R ->
       is_derive (fun x => loglik Phi t (mu x) (v x)) x (grad phi Phi t (mu x) (v x) (dmu x) (dv x)).
 Proof. exact grad_is_derivative. Qed.
 Print Assumptions C10_gradient_is_derivative.
+
+(** The same with the predictive variance written as latent variance + constant noise variance. *)
+Theorem C10_gradient_is_derivative_noise :
+  forall (phi Phi mu v dmu dv : R -> R) (t sigma2 : R),
+    (forall z, is_derive Phi z (phi z)) -> (forall z, 0 < Phi z)%R -> (forall z, 0 < phi z)%R ->
+    forall x, is_derive mu x (dmu x) -> is_derive v x (dv x) -> (0 < v x + sigma2)%R ->
+      is_derive (fun x => loglik Phi t (mu x) (v x + sigma2)) x
+                (grad phi Phi t (mu x) (v x + sigma2) (dmu x) (dv x)).
+Proof. exact grad_is_derivative_noise. Qed.
+Print Assumptions C10_gradient_is_derivative_noise.
+
+(** The translated gradient in chain-rule form (what the decidable spec [Gp.spec_grad_coord] evaluates). *)
+Theorem C10_gradient_chain_rule_form :
+  forall (phi Phi : R -> R) (t m v gm gv : R),
+    (0 < v)%R -> (0 < phi ((t - m) / sqrt v))%R -> (0 < Phi ((t - m) / sqrt v))%R ->
+    grad phi Phi t m v gm gv =
+    (phi ((t - m) / sqrt v) / Phi ((t - m) / sqrt v) * (- gm / sqrt v - (t - m) * gv / (2 * sqrt v * v)))%R.
+Proof. exact grad_chain_rule_form. Qed.
+Print Assumptions C10_gradient_chain_rule_form.
+
+(** Non-vacuity of the hypotheses above. *)
+Theorem C10_gradient_hypotheses_satisfiable :
+  exists (phi Phi mu v dmu dv : R -> R),
+    (forall z, is_derive Phi z (phi z)) /\ (forall z, 0 < Phi z)%R /\ (forall z, 0 < phi z)%R /\
+    (forall x, is_derive mu x (dmu x)) /\ (forall x, is_derive v x (dv x)) /\ (forall x, 0 < v x)%R.
+Proof. exact grad_hypotheses_satisfiable. Qed.
+Print Assumptions C10_gradient_hypotheses_satisfiable.
+
+(** Cached fast path: dkdx = 2 factor (x - X) kx is the derivative of kx = rbf_var exp(r2 factor). *)
+Theorem C10_rbf_dk_is_derivative :
+  forall (kvar factor a c xj : R),
+    is_derive (fun y => kvar * exp (((y - a) ^ 2 + c) * factor))%R xj
+              (2 * factor * (xj - a) * (kvar * exp (((xj - a) ^ 2 + c) * factor)))%R.
+Proof. exact rbf_dk_is_derivative. Qed.
+Print Assumptions C10_rbf_dk_is_derivative.
+
+(** The hand-written formula lines of the executable model are the generated ones. *)
+Theorem C10_generated_is_model :
+  forall t o gm gv,
+    gradQ (fun _ => o_sd o) (fun _ => o_ratio o) (fun _ => o_pdf o) (fun _ => o_cdf o)
+          (fun _ => o_logpdf o) (fun _ => o_logcdf o) t (o_mean o) (o_var o) gm gv = grad_coord t o gm gv
+    /\ loglikQ (fun _ => o_sd o) (fun _ => o_logcdf o) t (o_mean o) (o_var o) = ll_value o.
+Proof. intros; split; [apply gradQ_is_model | apply loglikQ_is_model]. Qed.
+Print Assumptions C10_generated_is_model.
+
+(** ** 2. -inf outside the bounds, log Phi + log prior inside *)
+Local Open Scope Q_scope.
+
+(** The coded fold over the coordinates accepts a point iff every coordinate lies in its closed interval. *)
+Theorem C10_within_bounds_spec :
+  forall x b, within_bounds x b = true <->
+              forall xi lo hi, In (xi, (lo, hi)) (combine x b) -> lo <= xi /\ xi <= hi.
+Proof. exact within_bounds_spec. Qed.
+Print Assumptions C10_within_bounds_spec.
+
+(** logpdf is -inf iff some coordinate is outside [lo, hi] (or the prior itself is -inf) ... *)
+Theorem C10_logpdf_neginf_iff :
+  forall b r, logpdf_row b r = NegInf <->
+    (exists xi lo hi, In (xi, (lo, hi)) (combine (r_x r) b) /\ (xi < lo \/ hi < xi)) \/ r_lprior r = NegInf.
+Proof. exact logpdf_row_neginf_iff. Qed.
+Print Assumptions C10_logpdf_neginf_iff.
+
+(** ... and otherwise log Phi((t - mean)/sd) + log prior. *)
+Theorem C10_logpdf_inside :
+  forall b r p,
+    (forall xi lo hi, In (xi, (lo, hi)) (combine (r_x r) b) -> lo <= xi /\ xi <= hi) ->
+    r_lprior r = Fin p -> logpdf_row b r = Fin (o_logcdf (r_orc r) + p).
+Proof. exact logpdf_row_inside. Qed.
+Print Assumptions C10_logpdf_inside.
+
+(** A scalar (first row) is returned exactly for 0-d input, or 1-d input when dim > 1. *)
+Theorem C10_shape_rule :
+  forall (ndim dim : nat) (d : ext) rows,
+    (exists a, shape_out ndim dim d rows = Scalar a) <-> (ndim = 0 \/ (ndim = 1 /\ 1 < dim))%nat.
+Proof. intros. apply shape_out_scalar_iff. Qed.
+Print Assumptions C10_shape_rule.
+
+(** ** 3. adding evidence keeps all earlier evidence unchanged and in order *)
+
+Theorem C10_update_keeps_prefix :
+  forall (A : Type) (st : @evidence A) bs1 bs2,
+    rows_of (final st (bs1 ++ bs2)) = rows_of (final st bs1) ++ concat bs2.
+Proof. intros. apply updates_keep_prefix. Qed.
+Print Assumptions C10_update_keeps_prefix.
+
+Theorem C10_update_keeps_rows :
+  forall (A : Type) (st : @evidence A) bs1 bs2 i row,
+    nth_error (rows_of (final st bs1)) i = Some row ->
+    nth_error (rows_of (final st (bs1 ++ bs2))) i = Some row.
+Proof. intros A st bs1 bs2 i row. apply updates_keep_rows. Qed.
+Print Assumptions C10_update_keeps_rows.
+
+Theorem C10_n_evidence_counts :
+  forall (A : Type) (st : @evidence A) bs,
+    n_evidence (final st bs) = (n_evidence st + length (concat bs))%nat.
+Proof. intros. apply n_evidence_counts. Qed.
+Print Assumptions C10_n_evidence_counts.
+
+(** ** 4. the decidable spec evaluated on the implementation's output is sound, and the model satisfies it *)
+
+Theorem C10_ok_sound :
+  forall c, ok c = true ->
+    match c with
+    | PostCase p =>
+        length (pc_impl_logpdf p) = length (pc_rows p) /\ length (pc_impl_grad p) = length (pc_rows p) /\
+        forall i r lp g, nth_error (pc_rows p) i = Some r -> nth_error (pc_impl_logpdf p) i = Some lp ->
+                         nth_error (pc_impl_grad p) i = Some g -> row_prop (pc_bounds p) (pc_t p) r lp g
+    | EvCase e =>
+        map fst (ec_snaps e) = map rows_of (run_updates None (ec_batches e))
+        /\ List.Forall (fun s => length (fst s) = snd s) (ec_snaps e)
+    end.
+Proof. intros c H; destruct c as [p|e]. - exact (rows_ok_sound _ _ _ _ _ H). - exact (ev_ok_sound _ H). Qed.
+Print Assumptions C10_ok_sound.
+
+Theorem C10_model_ok :
+  (forall b t rows,
+     List.Forall (fun r => o_var (r_orc r) == o_sd (r_orc r) * o_sd (r_orc r) /\ ~ o_sd (r_orc r) == 0) rows ->
+     rows_ok b t rows (map (fun r => to_obs (logpdf_row b r)) rows)
+             (map (fun r => map Some (gradpdf_row b t r)) rows) = true)
+  /\ (forall bs, ev_ok {| ec_batches := bs;
+                         ec_snaps := map (fun m => (rows_of m, n_evidence m)) (run_updates (@None (list erow)) bs) |} = true).
+Proof. split; [exact rows_model_ok | exact ev_model_ok]. Qed.
+Print Assumptions C10_model_ok.
+
+(** Non-vacuity: a 2-d box, a point on a bound (inside), one outside, an evidence history. *)
+Example C10_example_bounds :
+  within_bounds [1; 3#2] [(0, 1); (1, 2)] = true /\ within_bounds [1; 5#2] [(0, 1); (1, 2)] = false
+  /\ outside [1; 5#2] [(0, 1); (1, 2)] = true.
+Proof. vm_compute. repeat split. Qed.
+
+Example C10_example_evidence :
+  map rows_of (run_updates None [[1; 2]; [3]; [4; 5]]%nat) = [[1; 2]; [1; 2; 3]; [1; 2; 3; 4; 5]]%nat.
+Proof. reflexivity. Qed.
+
+(** ** 5. algebra of the cached-RBF fast path (mathcomp; over any commutative ring) *)
+From mathcomp Require Import all_ssreflect all_algebra.
+From Elfi Require Import Num.GpMx Proofs.C10_Mx.
+Import GRing.Theory.
+Local Open Scope ring_scope.
+
+(** r2 as coded (|x|^2 + |X_i|^2 - 2 x.X_i) is the squared distance |x - X_i|^2, for every evidence row. *)
+Theorem C10_fast_r2 :
+  forall (R : comRingType) (n d : nat) (x : 'rV[R]_d) (X : 'M[R]_(n, d)), r2_fast x X = r2_def x X.
+Proof. exact r2_fastE. Qed.
+Print Assumptions C10_fast_r2.
+
+Theorem C10_sqnorm_sub :
+  forall (R : comRingType) (d : nat) (x y : 'rV[R]_d),
+    sqnorm (x - y) = sqnorm x + sqnorm y - 2%:R * dot x y.
+Proof. exact sqnorm_sub. Qed.
+Print Assumptions C10_sqnorm_sub.
+
+(** predict: the coded variance equals k** - |L^-1 k^T|^2 + sigma2 whenever W = L^-T L^-1. *)
+Theorem C10_fast_variance :
+  forall (R : comRingType) (n : nat) (kss noise : R) (k : 'rV[R]_n) (W Linv : 'M[R]_n),
+    W = Linv^T *m Linv ->
+    var_fast kss noise k W = var_W kss noise k W /\ var_fast kss noise k W = var_chol kss noise k Linv.
+Proof. move=> R n kss noise k W Linv HW; split; [exact: var_fastE | exact: var_fast_chol]. Qed.
+Print Assumptions C10_fast_variance.
+
+(** predictive_gradients: with v, dv the solutions of the triangular systems and W = L^-T L^-1,
+    the coded -2 (dv^T v)^T is -2 k W dk ... *)
+Theorem C10_fast_variance_gradient :
+  forall (R : comRingType) (n d : nat) (L Linv W : 'M[R]_n) (k : 'rV[R]_n) (dk : 'M[R]_(n, d))
+         (v : 'cV[R]_n) (dv : 'M[R]_(n, d)),
+    Linv *m L = 1%:M -> L *m v = k^T -> L *m dv = dk -> W = Linv^T *m Linv ->
+    gradvar_fast v dv = gradvar_def k W dk.
+Proof. move=> R n d L Linv W k dk v dv; exact: gradvar_fastE. Qed.
+Print Assumptions C10_fast_variance_gradient.
+
+(** ... which is the first-order part of the quadratic form the variance subtracts (W symmetric). *)
+Theorem C10_variance_first_order :
+  forall (R : comRingType) (n : nat) (W : 'M[R]_n) (k h : 'rV[R]_n),
+    W^T = W -> qform W (k + h) = qform W k + 2%:R *: (h *m W *m k^T) + qform W h.
+Proof. move=> R n W k h; exact: qform_expand. Qed.
+Print Assumptions C10_variance_first_order.
+
+Theorem C10_variance_gradient_column :
+  forall (R : comRingType) (n d : nat) (W : 'M[R]_n) (k : 'rV[R]_n) (dk : 'M[R]_(n, d)) (j : 'I_d),
+    W^T = W -> (gradvar_def k W dk) 0 j = (- 2%:R *: ((col j dk)^T *m W *m k^T)) 0 0.
+Proof. move=> R n d W k dk j; exact: gradvar_def_col. Qed.
+Print Assumptions C10_variance_gradient_column.
+
+(** mean: linear in kx; the coded gradient (dkdx^T alpha)^T is alpha^T dkdx. *)
+Theorem C10_fast_mean_gradient :
+  forall (R : comRingType) (n d : nat) (k h : 'rV[R]_n) (alpha : 'cV[R]_n) (dk : 'M[R]_(n, d)),
+    mean_fast (k + h) alpha = mean_fast k alpha + mean_fast h alpha
+    /\ gradmean_fast dk alpha = gradmean_def dk alpha.
+Proof. move=> R n d k h alpha dk; split; [exact: mean_fast_linear | exact: gradmean_fastE]. Qed.
+Print Assumptions C10_fast_mean_gradient.
